@@ -942,6 +942,20 @@ Proof.
   destruct (apc y) as [| | | |[]| | |[]|]; discriminate.
 Qed.
 
+Lemma code_ne7 s h : N.eqb 7 (code s h) = false.
+Proof.
+  unfold code. destruct h as [m|t first|]; [| |reflexivity].
+  - destruct (nth_error (acts s) m) as [x|]; [|reflexivity]. destruct (apc x); reflexivity.
+  - destruct first; [|reflexivity]. destruct (nth_error (acts s) t) as [x|]; [|reflexivity].
+    destruct (apc x) as [| | | |[]| | |[]|]; reflexivity.
+Qed.
+
+Lemma no7 h e h' o : hstep h e = Some (h', o) -> existsb (N.eqb 7%N) o = false.
+Proof.
+  intros Hs. destruct (hstep_cases _ _ _ _ Hs) as [_ ->]. unfold obs.
+  induction (hmap h') as [|x l IH]; [reflexivity|]. cbn [map existsb]. now rewrite code_ne7, IH.
+Qed.
+
 (* ------------------------------------------------------------------ *)
 (* THE THEOREMS, about exactly what run_check_rwmutex uses: lstep hstep / lmon mon with the lockers state *)
 
@@ -951,7 +965,7 @@ Definition rw_mon := lmon mon (@length mact).
 Theorem model_satisfies_monitors evs :
   monitor rw_mon 0 ([], lockers0) [] evs (run_obs rw_step (hinit, lockers0) evs) = [].
 Proof.
-  apply (layer_clean hst (list mact) hstep mon (fun h => length (hmap h)) (@length mact) R R_len mon_step panic_obs rel_obs).
+  apply (layer_clean hst (list mact) hstep mon (fun h => length (hmap h)) (@length mact) R R_len mon_step panic_obs rel_obs no7).
   split; [apply R_init | reflexivity].
 Qed.
 
